@@ -57,7 +57,7 @@ class NumberField(Field):
 
         try:
             num = self.type_cls(value)  # type: Union[int, float]
-        except (ValueError, TypeError) as err:
+        except (ValueError, TypeError, OverflowError) as err:
             raise ValueError(
                 "value is not a valid %s" % self.type_cls.__name__
             ) from err
